@@ -652,7 +652,11 @@ func (ex *Exec) applyContract(fc *FuncContract, fn *ssa.Function, cc *ssa.CallCo
 		pre.vars[l.Name] = v
 	}
 	for _, rq := range fc.Requires {
-		if tag := fc.Options["assume-pre"]; tag != "" {
+		tag := fc.Options["assume-pre"]
+		if strings.HasPrefix(rq.Label, "assume:") {
+			tag = strings.TrimPrefix(rq.Label, "assume:")
+		}
+		if tag != "" {
 			// the precondition is an assumption about the environment (named
 			// in the trusted base), not an obligation of the caller
 			at, err := pre.Bool(rq.E)
